@@ -123,7 +123,8 @@ class InitMethod(MethodDescriptor):
                     {
                         key: value
                         for key, value in kwargs.items()
-                        if key not in instance_metadata.annotations
+                        if key not in instance_metadata.attrs
+                        or not instance_metadata.attrs[key].init
                         or key == instance_metadata.init_overflow_attr
                     },
                     _inplace=True,
